@@ -6,7 +6,7 @@ Open Scope Z_scope.
 Inductive orec :=
 | RB (t : Z) (i : nat) (b : bk) (k : nat) (r : option Z) (hint : nat) (after : list (option Z))   (* a backend command and the store right after it *)
 | RBegin (i : nat)                       (* task i starts its next item *)
-| REnd (i : nat) (o : outcome).          (* ... and this is how it ended for the caller *)
+| REnd (t : Z) (i : nat) (o : outcome).  (* ... and this is how it ended for the caller *)
 
 Inductive case := CConc (progs : list (list item)) (st0 : list (option Z)) (tmo : Z) (att : nat) (univ : list nat)
                         (trace : list orec) (tend : Z) (final : list (option Z)).
@@ -25,41 +25,46 @@ Definition snap (c : cfg) (univ : list nat) := map (store c) univ.
 Definition store_of (univ : list nat) (vals : list (option Z)) : nat -> option Z :=
   fun k => match find (fun kv => Nat.eqb (fst kv) k) (combine univ vals) with Some (_, v) => v | None => None end.
 
-(* task i runs through local work up to and including its next backend command *)
-Fixpoint settle (fuel : nat) (c : cfg) (i hint : nat) : cfg * obs :=
+(* a task runs its local work the moment it can: up to its next backend command or sleep *)
+Fixpoint eager (fuel : nat) (c : cfg) (i : nat) : cfg :=
   match fuel with
-  | O => (c, Idle)
-  | S f => let '(c', o) := run_task c i hint in match o with Local => settle f c' i hint | _ => (c', o) end
+  | O => c
+  | S f => let '(c', o) := run_task c i O in match o with Local => eager f c' i | _ => c end
   end.
-(* ... and through whatever local work is left at the end *)
-Fixpoint drain (fuel : nat) (c : cfg) (i : nat) : cfg * bool :=
+Definition settle_all (c : cfg) (n : nat) : cfg := fold_left (fun c i => eager 60 c i) (seq 0 n) c.
+(* let time pass up to t, stopping at every instant a sleeping task wakes up *)
+Fixpoint advance (fuel : nat) (c : cfg) (n : nat) (t : Z) : cfg :=
   match fuel with
-  | O => (c, false)
-  | S f => let '(c', o) := run_task c i O in match o with Local => drain f c' i | Idle => (c, true) | Back _ _ _ => (c', false) end
+  | O => c
+  | S f =>
+      if t <=? now c then c else
+      let ws := filter (fun w => (now c <? w) && (w <=? t)) (map (fun i => wake (tasks c i)) (seq 0 n)) in
+      match ws with
+      | [] => fst (step c (Tick (t - now c)))
+      | w0 :: r => let w := fold_left Z.min r w0 in
+                   advance f (settle_all (fst (step c (Tick (w - now c)))) n) n t
+      end
   end.
 
-Fixpoint replay (univ : list nat) (c : cfg) (seen : nat -> nat) (tr : list orec) : option (cfg * (nat -> nat)) :=
+Fixpoint replay (univ : list nat) (n : nat) (c : cfg) (seen : nat -> nat) (tr : list orec) : option (cfg * (nat -> nat)) :=
   match tr with
   | [] => Some (c, seen)
   | RB t i b k r hint after :: rest =>
-      let c1 := if now c <? t then fst (step c (Tick (t - now c))) else c in
-      let '(c2, o) := settle 80 c1 i hint in
+      let c1 := advance 200 c n t in
+      let '(c2, o) := run_task c1 i hint in
       match o with
       | Back b' k' r' =>
-          if bk_eqb b b' && Nat.eqb k k' && oz_eqb r r' && list_eqb oz_eqb (snap c2 univ) after then replay univ c2 seen rest else None
+          if bk_eqb b b' && Nat.eqb k k' && oz_eqb r r' && list_eqb oz_eqb (snap c2 univ) after then replay univ n (eager 60 c2 i) seen rest else None
       | _ => None
       end
-  | RBegin _ :: rest => replay univ c seen rest
-  | REnd i o :: rest =>
-      (* the outcome is produced by local work after the task's last command: settle it, then compare *)
-      let '(c1, fine) := (fix go (fuel : nat) (c : cfg) : cfg * bool :=
-                            match fuel with
-                            | O => (c, false)
-                            | S f => if Nat.ltb (seen i) (length (outs (tasks c i))) then (c, true)
-                                     else let '(c', o') := run_task c i O in match o' with Local => go f c' | _ => (c, false) end
-                            end) 80%nat c in
-      if fine && outcome_eqb (nth (seen i) (outs (tasks c1 i)) LockedErr) o then replay univ c1 (upd seen i (S (seen i))) rest else None
+  | RBegin _ :: rest => replay univ n c seen rest
+  | REnd t i o :: rest =>
+      let c1 := advance 200 c n t in
+      if Nat.ltb (seen i) (length (outs (tasks c1 i))) && outcome_eqb (nth (seen i) (outs (tasks c1 i)) LockedErr) o
+      then replay univ n c1 (upd seen i (S (seen i))) rest else None
   end.
+Definition all_done (c : cfg) (n : nat) : bool :=
+  forallb (fun i => match items (tasks c i), cur (tasks c i) with [], None => true | _, _ => false end) (seq 0 n).
 
 (* ---------- oracle: the property's words on the log ---------- *)
 (* a block run alone, its read-throughs answered by [reads]: overlay, delete set, results, unused reads *)
@@ -95,13 +100,16 @@ Definition tst0 := {| t_item := O; t_in := false; t_reads := []; t_wrote_del := 
 Definition cur_item (progs : list (list item)) (i : nat) (s : tst) : option item := nth_error (nth i progs []) (t_item s).
 
 Definition write_keys (cmds : list cmd) := map cmd_key (filter is_write cmds).
+Definition only_incr (k : nat) (c : cmd) := negb (Nat.eqb (cmd_key c) k) || match c with Incr _ _ | Get _ | Sleep _ => true | _ => false end.
+Definition writer_modes (progs : list (list item)) (k : nat) : list mode :=
+  flat_map (fun p => flat_map (fun it => match it with
+                                        | Txn b => if existsb (fun c => Nat.eqb (cmd_key c) k && is_write c) (bcmds b) then [bmode b] else []
+                                        | Direct _ => [] end) p) progs.
+(* a counter: written only by increments inside blocks, and the blocks incrementing it all use the same locking mode *)
 Definition all_incr_key (progs : list (list item)) (k : nat) : bool :=
-  forallb (fun p => forallb (fun it =>
-     match it with
-     | Direct c => negb (Nat.eqb (cmd_key c) k) || match c with Incr _ _ | Get _ | Sleep _ => true | _ => false end
-     | Txn b => forallb (fun c => negb (Nat.eqb (cmd_key c) k) || match c with Incr _ _ | Get _ | Sleep _ => true | _ => false end) (bcmds b) &&
-                (negb (existsb (fun c => Nat.eqb (cmd_key c) k && is_write c) (bcmds b)) || match bmode b with Fast => false | _ => true end)
-     end) p) progs.
+  forallb (fun p => forallb (fun it => match it with Direct c => negb (Nat.eqb (cmd_key c) k && is_write c) | Txn b => forallb (only_incr k) (bcmds b) end) p) progs &&
+  (forallb (fun m => match m with Locked => true | _ => false end) (writer_modes progs k) ||
+   forallb (fun m => match m with Serial => true | _ => false end) (writer_modes progs k)).
 Definition incr_sum (k : nat) (cmds : list cmd) : Z :=
   fold_left (fun a c => match c with Incr k' d => if Nat.eqb k' k then a + d else a | _ => a end) cmds 0.
 
@@ -114,7 +122,7 @@ Fixpoint ok_log (progs : list (list item)) (univ : list nat) (tmo : Z) (ts : nat
       let s := ts i in
       ok_log progs univ tmo (upd ts i {| t_item := t_item s; t_in := true; t_reads := []; t_wrote_del := false; t_wrote_set := false; t_lock0 := None |})
              before committed overstay rest
-  | REnd i o :: rest =>
+  | REnd _ i o :: rest =>
       let s := ts i in
       let good :=
         match cur_item progs i s with
@@ -188,7 +196,9 @@ Fixpoint ok_log (progs : list (list item)) (univ : list nat) (tmo : Z) (ts : nat
         | Some (Txn blk) =>
             match bmode blk, b with
             | Serial, BSetLock | Serial, BDelMany | Serial, BSetMany =>
-                if match b, r with BSetLock, Some 1 => true | BDelMany, _ => true | BSetMany, _ => true | _, _ => false end then
+                (* (the proviso: a writer whose own lock has lapsed is outside the claim) *)
+                let own_live := match t_lock0 s with Some t0 => t <? t0 + tmo | None => false end in
+                if match b, r with BSetLock, Some 1 => true | BDelMany, _ => own_live | BSetMany, _ => own_live | _, _ => false end then
                   forallb (fun j => Nat.eqb j i || match t_lock0 (ts j) with Some t0 => t0 + tmo <=? t | None => true end) (seq 0 (length progs))
                 else true
             | _, _ => true
@@ -211,12 +221,10 @@ Definition ok_case (progs : list (list item)) (st0 : list (option Z)) (tmo : Z) 
 Definition judge (c : case) : verdict :=
   match c with
   | CConc progs st0 tmo att univ trace tend final =>
-      let c0 := init progs (store_of univ st0) tmo att in
-      (match replay univ c0 (fun _ => O) trace with
-       | Some (c1, _) =>
-           let c2 := if now c1 <? tend then fst (step c1 (Tick (tend - now c1))) else c1 in
-           list_eqb oz_eqb (snap c2 univ) final &&
-           forallb (fun i => snd (drain 80 c2 i)) (seq 0 (length progs))
+      let n := length progs in
+      let c0 := settle_all (init progs (store_of univ st0) tmo att) n in
+      (match replay univ n c0 (fun _ => O) trace with
+       | Some (c1, _) => let c2 := advance 200 c1 n tend in list_eqb oz_eqb (snap c2 univ) final && all_done c2 n
        | None => false
        end,
        ok_case progs st0 tmo univ trace final, [])
@@ -225,14 +233,16 @@ Definition judge (c : case) : verdict :=
 Definition explain (c : case) :=
   match c with
   | CConc progs st0 tmo att univ trace tend final =>
-      let c0 := init progs (store_of univ st0) tmo att in
-      (* how far the replay gets: number of records accepted *)
-      (fix go (n : nat) (c : cfg) (seen : nat -> nat) (tr : list orec) : nat * obs :=
+      let n := length progs in
+      let c0 := settle_all (init progs (store_of univ st0) tmo att) n in
+      (* how far the replay gets: number of records accepted, and what the model wanted to do at the first one refused *)
+      (fix go (k : nat) (c : cfg) (seen : nat -> nat) (tr : list orec) : nat * obs * list (list outcome) :=
          match tr with
-         | [] => (n, Idle)
-         | r :: rest => match replay univ c seen [r] with
-                        | Some (c', seen') => go (S n) c' seen' rest
-                        | None => (n, match r with RB t i b k _ hint _ => snd (settle 80 (if now c <? t then fst (step c (Tick (t - now c))) else c) i hint) | _ => Local end)
+         | [] => (k, Idle, map (fun i => outs (tasks c i)) (seq 0 n))
+         | r :: rest => match replay univ n c seen [r] with
+                        | Some (c', seen') => go (S k) c' seen' rest
+                        | None => (k, match r with RB t i b _ _ hint _ => snd (run_task (advance 200 c n t) i hint) | _ => Local end,
+                                   map (fun i => outs (tasks c i)) (seq 0 n))
                         end
          end) O c0 (fun _ => O) trace
   end.
